@@ -136,6 +136,22 @@ pub fn check_delivery(w: &World, plan: &Plan, prop: &str, is_async: bool) -> Opt
     if w.attempts.len() != plan.msgs.len() {
         return v(prop, "1-send-ok", "incomplete", "send", format!("{} of {} messages were sent", w.attempts.len(), plan.msgs.len()));
     }
+    // 0. what the sender holds at send() is what the application built: the same construction
+    //    read back identically in the planner's pattern-filled scratch buffer, so a difference
+    //    means the value depends on what the (reused) send buffer held before
+    for (i, a) in w.attempts.iter().enumerate() {
+        if let Some(mp) = plan.msgs.get(a.msg_index) {
+            if a.val != mp.expect_val {
+                return v(
+                    prop,
+                    "0-requested-value",
+                    "stale-buffer",
+                    "send",
+                    format!("send #{}: the application built {} but the value in the (reused) send buffer reads {}", i, mp.expect_val.short(), a.val.short()),
+                );
+            }
+        }
+    }
     // 3. conservation on the wire: during send() i exactly frame i went out
     let mut off = 0usize;
     for (i, a) in w.attempts.iter().enumerate() {
@@ -260,7 +276,10 @@ pub fn check_faults(w: &World, plan: &Plan, prop: &str, _is_async: bool) -> Opti
         }
     }
     for (i, r) in w.recvs.iter().enumerate() {
-        if r.saw_err_hard && !matches!(r.outcome, RecvOutcome::ReadErr(_)) {
+        // the statement asks for "an error": Read(_) is the natural one, Closed is accepted too
+        // (an implementation may map e.g. ConnectionReset to end-of-stream); the receiver party
+        // retries after such a Closed, so that nothing may be lost that way (R1)
+        if r.saw_err_hard && !matches!(r.outcome, RecvOutcome::ReadErr(_) | RecvOutcome::Closed) {
             let o: String = format!("{:?}", r.outcome).chars().take(120).collect();
             return v(prop, "T2-surfacing", "error-swallowed", "recv", format!("recv #{}: the pipe returned a read error but recv() returned {}", i, o));
         }
